@@ -1,5 +1,7 @@
 package main
 
+import "fmt"
+
 func init() {
 	registerCheck(&CheckDef{
 		ID: "C19",
@@ -139,6 +141,54 @@ func init() {
 		Outside:   []string{"process restart and replay from the durable log by hashicorp/raft", "interplay with real snapshots (see C02)"},
 		Functions: []string{"main.(*FSM).applyProto", "raftstore.(*LevelDBStore).StoreLogProto", "robust.(*Message).ProtoMessage", "robust.NewMessageFromBytes", "ircserver.(*IRCServer).UpdateLastClientMessageID"},
 		Rule:      "cases: (panic?, encoding) for the marking half; one case for the replay half; non-trivial when the exit observer or the final assertions are reached",
+	})
+}
+
+func ircRun(name, entry string, params map[string]int) HarnessRun {
+	return HarnessRun{Name: name, Pkg: "internal/ircserver", PkgName: "ircserver", Files: ircFiles, SymFiles: ircSym, NatFiles: ircNat,
+		Entry: entry, Params: params, Unwind: 10, Solver: "z3-new"}
+}
+
+func mergeParams(a map[string]int, kv ...interface{}) map[string]int {
+	out := map[string]int{}
+	for k, v := range a {
+		out[k] = v
+	}
+	for i := 0; i+1 < len(kv); i += 2 {
+		out[kv[i].(string)] = kv[i+1].(int)
+	}
+	return out
+}
+
+func init() {
+	registerCheck(&CheckDef{
+		ID: "C03",
+		Runs: func(tier string) []HarnessRun {
+			base := map[string]int{"S": 2, "C": 1, "L": 4, "secretnil": 1, "cfgmaps": 1}
+			if tier == "thorough" {
+				base = map[string]int{"S": 3, "C": 2, "L": 5, "link": 1, "P": 1, "secretnil": 1, "cfgmaps": 1, "bans": 2}
+			}
+			var runs []HarnessRun
+			for _, g := range []int{0, 1, 2, 4, 8, 16, 32, 64} {
+				runs = append(runs, ircRun(fmt.Sprintf("group%d", g), "verifHarness_C03_roundtrip", mergeParams(base, "sym", g)))
+			}
+			return runs
+		},
+		Assumptions: []string{
+			"golang/protobuf round-trips a message struct (abstract codec: proto.Marshal yields an opaque blob bound to a deep copy of pb.Snapshot)",
+			"time.Duration.String/time.ParseDuration and hex.EncodeToString/DecodeString are inverse pairs; regexp.Compile(re.String()) succeeds for a compiled regexp",
+			"template invariant (DESIGN §4): creation instants positive, timestamps with nanosecond resolution (second-resolution topic times from services TOPIC are not generated)",
+			"strings ASCII (case mapping) and free of CR/LF/NUL",
+		},
+		Bounds: func(tier string) map[string]interface{} {
+			if tier == "thorough" {
+				return map[string]interface{}{"sessions": 3, "services_link_and_pseudo_clients": "1+1", "channels": 2, "string_bytes": 5, "bans_per_channel": 2, "shape_groups": "one optional-element group symbolic at a time (user modes, channel modes, membership/status bits, invitations, optional config maps, registration status, optional timestamps) against a fixed shape of the others; all scalar and string fields symbolic in every run"}
+			}
+			return map[string]interface{}{"sessions": 2, "channels": 1, "string_bytes": 4, "bans_per_channel": 1, "shape_groups": "one optional-element group symbolic at a time against a fixed shape of the others; all scalar and string fields symbolic in every run"}
+		},
+		Outside:   []string{"protobuf wire encoding", "the full product of all optional-element shapes", "observational equivalence for continuations is inferred from state equality plus C01"},
+		Functions: []string{"ircserver.(*IRCServer).Marshal", "ircserver.(*IRCServer).Unmarshal", "ircserver.timeToTimestamp", "ircserver.timestampToTime", "config.Duration.String", "config.HexString.String"},
+		Rule:      "one case per shape group and feasible path through Marshal/Unmarshal; non-trivial when the field-by-field comparison is reached",
 	})
 }
 
